@@ -84,6 +84,21 @@ CLAIMED = {
         note=('Arguments are generated exactly on or clearly between samples so no verdict depends on rounding. Empty-result crops, '
               'normalising a zero total (0/0) and Simpson binning on non-uniform centres/data are outside the statement and not judged. '
               'scipy.integrate.simpson is trusted as reference for Simpson totals.')),
+    'C18': dict(
+        design='7.9',
+        text=('Seeded deterministic simulation in which the simulator owns numpy\'s global random generator: 2-4 callers issue seeded '
+              'model calls (Poisson and Gaussian shot noise, read noise, dark current with/without fixed-pattern noise, rule-07 dark '
+              'current, power-spectrum surface error on square and non-square masks; int and array seeds) and unseeded cosmic-ray frames in '
+              'an interleaved schedule while environment events draw from or reseed the global generator between steps, calls are '
+              'duplicated, and signals that must be refused (a negative pixel, a pixel above 9.22e18) are injected. Oracles: a seeded '
+              'result is bit-identical across repeats, across positions in the schedule and across global-RNG states (interleaved pass vs '
+              'solo pass started from a different global seed); the global state is untouched by every seeded call; different seeds give '
+              'different frames; support (integer, non-negative, floor(rate), zero outside the mask, exact RMS, refusals in both shot-noise '
+              'methods); 7-sigma moment checks on 4096-pixel frames; cosmic-ray frames have the requested shape, are finite and '
+              'non-negative and are a deterministic function of the global state they start from (re-executed from the saved state). '
+              'Exploration.'),
+        note=('Moment checks are statistical (7 standard errors; an alarm replays bit-for-bit because seeds derive from VERIF_SEED). '
+              'Gaussian shot noise is judged only in its documented regime (signal >= 1000). seed=None (OS entropy) is never used.')),
 }
 
 NA = {
